@@ -57,7 +57,10 @@ def run_C11(ctx):
     tasks = V.tlc_generate(ctx, "extbad", 140 if q else 2800, 1)
     tasks += V.tlc_generate(ctx, "ext", 40 if q else 600, 1)
     fs = [{"mu": False, "sequential": True, "simplify": True, "eqbreak": True, "direction": "universal", "bypass": False},
-          {"mu": False, "sequential": False, "simplify": False, "eqbreak": True, "direction": "universal", "bypass": True}]
+          {"mu": False, "sequential": False, "simplify": False, "eqbreak": True, "direction": "universal", "bypass": True},
+          # the conditions do not depend on the direction that is asked for
+          {"mu": False, "sequential": False, "simplify": True, "eqbreak": False, "direction": "forward", "bypass": False},
+          {"mu": False, "sequential": True, "simplify": False, "eqbreak": True, "direction": "backward", "bypass": False}]
     for t in tasks:
         t["flagsets"] = fs
     trecs = []
